@@ -3,6 +3,8 @@
 
   tools_mkwave.py seeds   <dir> [--base neutral/<x>.diff]   one worktree + prompt per property: a change that BREAKS the property
   tools_mkwave.py neutral <dir> <style>                      one worktree + prompt per module group: a behaviour-preserving commit
+  tools_mkwave.py feature <dir>                              one worktree + prompt per module group: behaviour-CHANGING edits that keep the
+                                                             properties of that group true (probes over-specification of the checks)
 
 The prompts contain the property text (seeds) or the function list (neutral) only - nothing from /verif. The worktrees are removed
 with `git -C /repo worktree remove --force <dir>/<x>` once the results are confirmed and stored."""
@@ -37,6 +39,10 @@ BASE_CONTEXT = ("IMPORTANT CONTEXT: this worktree is NOT the upstream code: it a
                 "or in how a function passes arguments to a helper.\n\n")
 
 STEERS = {
+    "7": "Prefer a change of one of these kinds, whichever fits the code: TWO cooperating edits in different functions that each look fine alone (e.g. a helper that now returns something slightly different plus a caller that was 'adapted'); "
+         "a slip in a function that SEVERAL devices share (a method of the signal classes, a utility), visible only through one of its callers; a changed default value or a default that is now computed at another time; "
+         "a fast path / shortcut for a 'common case' whose condition is slightly too wide; an update to a local that should have been made to the object (or the other way round); a numpy idiom replaced by a near-equivalent "
+         "(np.round vs int, // vs /, argsort vs sort, mean over another axis, in-place vs copy, view vs copy, >= vs >, len vs size on 2-D data); a validation that moved after the first use of the value.",
     "5": "Prefer one of these kinds of slips, whichever fits the code: a boundary made inclusive/exclusive, an off-by-one in a slice or range, a wrong axis, a swapped pair of arguments, a sign or a complex conjugate, "
          "a unit factor (1e-12, 1e9, dB vs linear, Hz vs rad/s), an integer/float division, a dtype that truncates or wraps, a condition that is right for the common case only, an exception type or message path that changed, "
          "a value read at the wrong time (before an update instead of after), a copy turned into a view, a loop that stops one iteration early or late.",
@@ -60,6 +66,34 @@ STYLES = {
 - validation: collect the argument checks of a function into one private `_validate_<name>(...)` function that raises the same exceptions, with the same types and messages, in the same order; normalise an argument once at the top into a local.
 ''',
 }
+
+GROUP_PROPS = {"typing": ["C01", "C02", "C14", "C15"], "devA": ["C04", "C05", "C06"], "devB": ["C07", "C08", "C09", "C10", "C11"], "devC": ["C16", "C17", "C18"],
+               "codecs": ["C03", "C12", "C13"], "utils": ["C13", "C18", "C19"], "lab": ["C20"]}
+
+FEATURE_TMPL = '''You are helping test a verification tool for OVER-SPECIFICATION (alarms on code that still satisfies its contract). Work ONLY inside the git worktree {wt} (a checkout of the Python library "opticomlib"). Do not read or write anything under /verif or /repo.
+
+The CONTRACT of the code you will touch is the following list of semantic properties. They - and nothing else - must stay true:
+
+{props}
+
+Your job: make 8-14 realistic FEATURE / MAINTENANCE commits' worth of edits to these functions in {file}: {funcs} - edits that DO change observable behaviour somewhere, but never in a way that makes any clause of the contract above false for any input in its quantified domain. Everything the contract does not constrain is free. Use a good mix of:
+- new optional keyword parameters that change behaviour only when passed (e.g. `normalize=False`, `out_dtype=None`, `window=None`, `return_info=False`, `strict=False`); today's calls must keep satisfying the contract;
+- accepting additional input kinds the contract does not mention (e.g. pandas-like objects via `np.asarray`, `pathlib.Path`, generators), or additional spellings of an option value;
+- changed texts of warnings and error messages, extra warnings; a different exception type ONLY where the contract does not name the type;
+- extra attributes on returned objects, extra keys in returned dicts, richer `__repr__`/`__str__`, extra plotting options;
+- additional validation that rejects inputs OUTSIDE the contract's quantified domain (the contract does not say what happens there);
+- a different numerical method or resolution where the contract states a tolerance or no exact value (a finer search grid, a different but valid estimator for a quantity the contract bounds loosely) - only if you can show the contract's bound still holds;
+- changed defaults of parameters the contract does not fix; internal caching ONLY if the result cannot depend on anything but the cache key;
+- ordinary refactoring in between.
+Do NOT: break any clause of the contract, touch tests, or write comments that announce what you are doing for the tool. Keep the code clean and plausible; the interpreter is Python 3.12. The existing tests must still pass (if a test pins behaviour you wanted to change, leave that behaviour alone).
+
+Steps:
+1. Read the source and the contract, plan the edits, make them in {wt}.
+2. Save the diff: cd {wt} && git diff -- opticomlib > {wt}/feature.diff . Do NOT use `git stash`.
+3. Write {wt}/contract_check.py: a script that checks every clause of the contract you could have affected on many sampled inputs from the quantified domain (fixed seeds; exact checks where the contract is exact, the stated tolerances otherwise), prints PASS and exits 0 when all hold, prints the failing clause and exits 1 otherwise. It must import `opticomlib` from PYTHONPATH (remove the script's own directory from sys.path[0] so that PYTHONPATH decides). Run it on your changed code: cd {wt} && MPLBACKEND=Agg OMP_NUM_THREADS=1 PYTHONPATH={wt} timeout 600 /venv/bin/python contract_check.py  -> PASS. Also run it on the original code to make sure the script itself is right: copy the original package (git show HEAD:opticomlib/<file> for each file, or `git worktree`-free: `mkdir -p {wt}/orig_pkg && git archive HEAD opticomlib | tar -x -C {wt}/orig_pkg`) and run with PYTHONPATH={wt}/orig_pkg -> PASS (features that do not exist in the original must be skipped there).
+4. Run the existing tests with your edits: cd {wt} && MPLBACKEND=Agg PYTHONPATH={wt} timeout 900 /venv/bin/python -m pytest -q -p no:cacheprovider --timeout=900 tests  (expect 49 passed).
+5. If a contract clause fails, FIX YOUR EDIT (not the check). Regenerate feature.diff at the end.
+6. Reply with a numbered list of the edits (function: what changed observably, and why the contract still holds), and the commands run with outcomes. Leave feature.diff and contract_check.py in {wt}; do not commit. Never call devices.FIBER without a `timeout` wrapper and small inputs.{extra}'''
 
 NEUTRAL_TMPL = '''You are helping test a static-analysis tool for false alarms. Work ONLY inside the git worktree {wt} (a checkout of the Python library "opticomlib"). Do not read or write anything under /verif or /repo.
 
@@ -108,6 +142,13 @@ def main():
             prev = "; ".join(f"({n}) {needs}" for n, needs in seeds.get(pid, [])) or "(none)"
             open(f'{d}/prompt_{pid}.txt', 'w').write(SEED_TMPL.format(wt=wt, id=pid, title=p['title'], statement=p['statement'], quant=p['quantifier']['text'],
                                                                      context=BASE_CONTEXT if base else "", prev=prev, steer=steer, extra=LAB_NOTE if pid == "C20" else ""))
+    elif kind == "feature":
+        props = {json.loads(l)['id']: json.loads(l) for l in open('/verif/properties.jsonl')}
+        for g, (f, fu) in GROUPS.items():
+            wt = f'{d}/{g}'
+            worktree(wt)
+            txt = "\n\n".join(f"[{pid}] {props[pid]['title']}\nSTATEMENT: {props[pid]['statement']}\nQUANTIFIED OVER: {props[pid]['quantifier']['text']}" for pid in GROUP_PROPS[g])
+            open(f'{d}/prompt_{g}.txt', 'w').write(FEATURE_TMPL.format(wt=wt, file=f, funcs=fu, props=txt, extra=LAB_NOTE if g == "lab" else ""))
     else:
         style = STYLES[sys.argv[3]]
         for g, (f, fu) in GROUPS.items():
